@@ -7,6 +7,7 @@ import (
 	"go/token"
 	"go/types"
 	"io"
+	"path/filepath"
 	"reflect"
 	"slices"
 	"strings"
@@ -599,7 +600,13 @@ func (g *graph) entry() {
 			// as such and must not suppress anything.
 			continue
 		}
-		if slices.Contains(strings.Split(dir.Arguments[0], ","), "U1000") {
+		// Check names are matched the same way lintcmd matches them for all
+		// other checks: case-insensitively and as glob patterns.
+		namesU1000 := slices.ContainsFunc(strings.Split(dir.Arguments[0], ","), func(c string) bool {
+			m, _ := filepath.Match(strings.ToLower(c), "u1000")
+			return m
+		})
+		if namesU1000 {
 			pos := g.fset.PositionFor(dir.Node.Pos(), false)
 			var key ignoredKey
 			switch dir.Command {
